@@ -11,19 +11,20 @@
    The reference REJECTS in the last three cases ([spec_value]); they are kept apart because the
    property's guard is stated with them:
      SEnd    the buffer is exhausted exactly where an item starts (nothing of it was read)
-     STrunc  the buffer ends INSIDE a length-announced or template-sized item (string characters,
-             byte block, string data area, structure image) or inside an element of an unbounded array
-     SBad    anything else the reference refuses (short fixed-width scalar, invalid character,
-             unsupported character size)
+     STrunc  the buffer ends inside an ELEMENT of an unbounded array (after at least one byte of it)
+     SBad    anything else the reference refuses (a scalar, string, byte block, string data area or
+             structure image that the buffer cuts short, invalid character, unsupported character size)
 
    Layouts:
      integers   w bytes, byte i = (z mod 2^(8w)) / 256^i mod 256 (two's complement), range-checked
      BOOL       0xFF / 0x00; decoding: non-zero = true
      REAL/LREAL IEEE-754 binary32/binary64 bit patterns (Spec/WireFloat.v, Flocq), little-endian
      bit string bit i of the value = bit (i mod 8) of byte (i / 8)
-     strings    count of CHARACTERS in the documented prefix (UDINT LOGIX_STRING, UINT STRING /
-                STRING2, USINT SHORT_STRING; STRINGN: UINT character size then UINT count), then each
-                character on the documented number of bytes (1, 2 or 4), little-endian
+     strings    count of CHARACTERS (units of the character size) in the documented prefix (UDINT
+                LOGIX_STRING, UINT STRING / STRING2, USINT SHORT_STRING; STRINGN: UINT character size
+                then UINT count), then each character on the documented number of bytes (1, 2 or 4),
+                little-endian; on 2-byte characters a character above U+FFFF is a UTF-16 surrogate
+                pair (two units), as the documented encoding "utf-16-le" of STRING2 / STRINGN says
      FixedSizeString  count, characters, zero padding up to the data size; values longer than the
                 capacity truncated; a count above the data size reads the whole data area
      arrays     concatenation of the elements (a bit-string array takes / yields the flat bit list)
@@ -78,11 +79,11 @@ Definition sfield (n : Z) (bs : bytes) (k : bytes -> bytes -> sres) : sres :=
   | [] => SEnd
   | _ => if blen bs <? n then SBad else k (firstn (Z.to_nat n) bs) (skipn (Z.to_nat n) bs)
   end.
-(* a block whose size n was announced (or is given by a template) *)
+(* a block whose size n was announced (or is given by a template): read like a scalar field *)
 Definition sblock (n : Z) (bs : bytes) (k : bytes -> bytes -> sres) : sres :=
   match bs with
   | [] => SEnd
-  | _ => if blen bs <? n then STrunc else k (firstn (Z.to_nat n) bs) (skipn (Z.to_nat n) bs)
+  | _ => if blen bs <? n then SBad else k (firstn (Z.to_nat n) bs) (skipn (Z.to_nat n) bs)
   end.
 
 Definition sdec_int (sg : bool) (w : nat) (bs : bytes) : sres :=
@@ -120,11 +121,24 @@ Definition sdec_datetime (bs : bytes) : sres :=
 (* bytes per character of the encodings the string classes name; UTF-8 is not a fixed-width layout *)
 Definition char_width (e : tenc) : option nat :=
   match e with Latin1 => Some 1%nat | Utf16 => Some 2%nat | Utf32 => Some 4%nat | Utf8 => None end.
-(* a character representable on cw bytes: a Unicode scalar value below 256^cw *)
+(* a character that is one unit of cw bytes: a Unicode scalar value below 256^cw *)
+Definition is_surr (c : Z) : bool := (0xD800 <=? c) && (c <=? 0xDFFF).
 Definition char_ok (cw : nat) (c : Z) : bool :=
-  (0 <=? c) && (c <? wpow cw) && (c <=? 0x10FFFF) && negb ((0xD800 <=? c) && (c <=? 0xDFFF)).
-Definition spec_chars (cw : nat) (s : text) : option bytes :=
-  if forallb (char_ok cw) s then Some (flat_map (spec_le cw) s) else None.
+  (0 <=? c) && (c <? wpow cw) && (c <=? 0x10FFFF) && negb (is_surr c).
+(* the bytes of one character: one unit, or (2-byte characters only) a UTF-16 surrogate pair *)
+Definition spec_char (cw : nat) (c : Z) : option bytes :=
+  if char_ok cw c then Some (spec_le cw c)
+  else if (cw =? 2)%nat && (0x10000 <=? c) && (c <=? 0x10FFFF)
+       then let c' := c - 0x10000 in Some (spec_le 2 (0xD800 + c' / 1024) ++ spec_le 2 (0xDC00 + c' mod 1024))
+       else None.
+Fixpoint spec_chars (cw : nat) (s : text) : option bytes :=
+  match s with
+  | [] => Some []
+  | c :: r => match spec_char cw c, spec_chars cw r with
+              | Some a, Some b => Some (a ++ b)
+              | _, _ => None
+              end
+  end.
 Fixpoint spec_chars_dec (cw : nat) (fuel : nat) (bs : bytes) : option text :=
   match bs with
   | [] => Some []
@@ -133,16 +147,27 @@ Fixpoint spec_chars_dec (cw : nat) (fuel : nat) (bs : bytes) : option text :=
       | O => None
       | S f =>
           if (length bs <? cw)%nat then None
-          else let c := spec_le_val (firstn cw bs) in
-               if char_ok cw c then option_map (cons c) (spec_chars_dec cw f (skipn cw bs)) else None
+          else
+            let u := spec_le_val (firstn cw bs) in
+            let r := skipn cw bs in
+            if (cw =? 2)%nat && (0xD800 <=? u) && (u <=? 0xDBFF) then
+              if (length r <? 2)%nat then None
+              else let u2 := spec_le_val (firstn 2 r) in
+                   if (0xDC00 <=? u2) && (u2 <=? 0xDFFF)
+                   then option_map (cons (0x10000 + (u - 0xD800) * 1024 + (u2 - 0xDC00))) (spec_chars_dec cw f (skipn 2 r))
+                   else None
+            else if char_ok cw u then option_map (cons u) (spec_chars_dec cw f r) else None
       end
   end.
 
 Definition spec_str_enc (lw cw : nat) (v : val) : option bytes :=
   match v with
-  | VStr s => match spec_int lw false (blen s), spec_chars cw s with
-              | Some p, Some d => Some (p ++ d)
-              | _, _ => None
+  | VStr s => match spec_chars cw s with
+              | Some d => match spec_int lw false (blen d / Z.of_nat cw) with
+                          | Some p => Some (p ++ d)
+                          | None => None
+                          end
+              | None => None
               end
   | _ => None
   end.
@@ -160,9 +185,12 @@ Definition sdec_str (lw cw : nat) (bs : bytes) : sres :=
    encoder uses character size 1 *)
 Definition spec_stringn_enc (v : val) : option bytes :=
   match v with
-  | VStr s => match spec_int 2 false (blen s), spec_chars 1 s with
-              | Some p, Some d => Some (spec_le 2 1 ++ p ++ d)
-              | _, _ => None
+  | VStr s => match spec_chars 1 s with
+              | Some d => match spec_int 2 false (blen d) with
+                          | Some p => Some (spec_le 2 1 ++ p ++ d)
+                          | None => None
+                          end
+              | None => None
               end
   | _ => None
   end.
@@ -395,7 +423,10 @@ Fixpoint sdec_stag_members (ms : list ((key * nat) * (bytes -> sres))) (priv : l
   end.
 Definition sdec_stag (ms : list ((key * nat) * (bytes -> sres))) (bits : list (text * (nat * nat)))
            (priv : list text) (size : nat) (bs : bytes) : sres :=
-  if (length bs <? size)%nat then STrunc
+  match bs with
+  | [] => SEnd
+  | _ =>
+  if (length bs <? size)%nat then SBad
   else
     let raw := firstn size bs in
     sbind (sdec_stag_members ms priv raw) (fun d _ =>
@@ -405,7 +436,8 @@ Definition sdec_stag (ms : list ((key * nat) * (bytes -> sres))) (bits : list (t
                                   (Some (fst b), VBool (spec_bit_at raw (8 * fst (snd b) + snd (snd b))))) bits))
               (skipn size bs)
       | _ => SBad
-      end).
+      end)
+  end.
 
 (* ------------------------------------------------------------------ the reference codec *)
 Definition no_value : val -> option bytes := fun _ => None.
@@ -577,9 +609,17 @@ Fixpoint all_some {A} (l : list (option A)) : option (list A) :=
   | Some a :: r => option_map (cons a) (all_some r)
   | None :: _ => None
   end.
-(* template well-formedness: members of constant width, inside [size], pairwise disjoint; bit
-   members inside [size], bit numbers 0..7, not private; all names distinct.  Bit members MAY lie in
-   a visible member (module-defined templates do that). *)
+(* scalars that decode every byte pattern of their width (what a hidden BOOL host is made of) *)
+Definition stotal (t : ty) : bool :=
+  match t with
+  | TBool | TReal _ => true
+  | Codec.TInt _ w | TBits w => (0 <? w)%nat
+  | _ => false
+  end.
+(* template well-formedness: a non-empty image whose first member has a width; members of constant
+   width, inside [size], pairwise disjoint; hidden (private) members are plain scalars; bit members
+   inside [size], bit numbers 0..7, not private; all names distinct.  Bit members MAY lie in a
+   visible member (module-defined templates do that). *)
 Definition tmpl_ok (ms : list ((key * nat) * ty)) (bits : list (text * (nat * nat))) (priv : list text) (size : nat) : bool :=
   match all_some (map (extent_of size) ms) with
   | Some exts => extents_disjoint exts
@@ -587,7 +627,9 @@ Definition tmpl_ok (ms : list ((key * nat) * ty)) (bits : list (text * (nat * na
   end
   && forallb (fun b : text * (nat * nat) => (fst (snd b) <? size)%nat && (snd (snd b) <? 8)%nat
                                             && negb (existsb (stext_eqb (fst b)) priv)) bits
-  && skeys_distinct (map (fun m : (key * nat) * ty => fst (fst m)) ms ++ map (fun b : text * (nat * nat) => Some (fst b)) bits).
+  && skeys_distinct (map (fun m : (key * nat) * ty => fst (fst m)) ms ++ map (fun b : text * (nat * nat) => Some (fst b)) bits)
+  && ((0 <? size)%nat && sheadb (fun m : (key * nat) * ty => sconsumes (snd m)) ms)
+  && forallb (fun m : (key * nat) * ty => negb (skey_in (fst (fst m)) priv) || stotal (snd m)) ms.
 
 Definition is_nbytes (t : ty) : bool := match t with TNBytes _ => true | _ => false end.
 Definition is_bitstr (t : ty) : bool := match t with TBits _ => true | _ => false end.
